@@ -99,6 +99,11 @@ def rand_custom_param(r, gid, name, maxdesc=255):
             k = r.randint(0, w)
             p["values"] = [bytes(r.choice(b"ABCdef 12_") for _ in range(k)).rstrip(b" ")]
         else:
+            if nd == 2 and r.random() < 0.15:
+                dims[0] = r.choice([130, 200, 254, 255])      # a wide cell with mostly short entries: long padding runs
+                dims[1] = r.randint(1, 4)
+                cnt = dims[0] * dims[1]
+                p["dims"] = dims
             w = dims[0]
             n = cnt // w if w else 1
             if w == 0:
